@@ -87,6 +87,45 @@ theorem view_owned_moves_once {β : Type} (v : View ν α) (h : v.WF) (hn : v.le
       exact hc k (List.mem_range.mp hk) he
     simp only [this, if_false]
 
+/-- A view never has more elements than its leaves have storage cells (distinct indexes resolve
+    to distinct cells of the view's own leaves — pigeonhole). -/
+theorem view_elements_le_storage (v : View ν α) (h : v.WF) (hn : v.leafIds.Nodup) :
+    prod (lens v.shape) ≤ (v.leaves.map fun l => l.2.length).sum := by
+  have F := view_iterators_faithful v h hn
+  have E := shape_enumerates (lens v.shape)
+  have hnodup := (mut_items_distinct E F (prod (lens v.shape))).2
+  rw [Nat.min_self] at hnodup
+  -- every handed-out cell is a storage cell of one of the leaves
+  let allCells : List Cell :=
+    v.leaves.flatMap fun l => (List.range l.2.length).map fun o => (l.1, o)
+  have hsub : (List.range (prod (lens v.shape))).map
+      (fun k => ((shapeItem (lens v.shape) k).bind (TSource.ofView v).cell).getD default) ⊆
+      allCells := by
+    intro c hc
+    obtain ⟨k, hk, rfl⟩ := List.mem_map.mp hc
+    have hk' := List.mem_range.mp hk
+    have hin := unravel_inBounds (lens v.shape) k hk'
+    obtain ⟨c, hcs, data, h1, h2⟩ := (View.resolves v h).1 _ hin
+    have hu := View.uncheckedOK v h _ c hin hcs
+    simp only [shapeItem, hk', if_true, Option.bind_some, TSource.ofView, hu, Option.getD_some]
+    exact List.mem_flatMap.mpr ⟨(c.1, data), h1, List.mem_map.mpr ⟨c.2, List.mem_range.mpr h2, rfl⟩⟩
+  have hlen := List.Nodup.length_le_of_subset hnodup hsub
+  have hall : allCells.length = (v.leaves.map fun l => l.2.length).sum := by
+    simp [allCells, List.length_flatMap]
+  rw [List.length_map, List.length_range, hall] at hlen
+  exact hlen
+
+/-- `shapeIter_len` without the hypothesis on the element count: for every view over leaves
+    that fit in the address space together, `size_hint()` / `len()` of its iterators are exact at
+    every point of the iteration and their computation cannot overflow. -/
+theorem view_len_exact (v : View ν α) (h : v.WF) (hn : v.leafIds.Nodup)
+    (hfit : (v.leaves.map fun l => l.2.length).sum ≤ usizeMax) (k : Nat) :
+    (ShapeIter.steps k (ShapeIter.new (lens v.shape))).sizeHint =
+        .ok (remaining (prod (lens v.shape)) k, some (remaining (prod (lens v.shape)) k)) ∧
+      lenOfHint (ShapeIter.steps k (ShapeIter.new (lens v.shape))).sizeHint =
+        .ok (remaining (prod (lens v.shape)) k) :=
+  shapeIter_len (lens v.shape) (Nat.le_trans (view_elements_le_storage v h hn) hfit) k
+
 /-- non-vacuity: a range over a reversed 2×3 tensor is a well-formed view with one leaf, and
     iterating it visits offsets 2, 1, 5, 4 -/
 example :
